@@ -3,18 +3,6 @@
 // `&mut` of their own field, so the frame "the session table is unchanged by I/O" follows from Rust's borrow rules,
 // not from an assumption. What IS assumed is listed per item.
 
-/// iroh `PublicKey` (`EndpointId` is the same type): 32 key bytes.
-#[derive(Clone, Copy, PartialEq, Eq)]
-pub struct PublicKey(pub [u8; 32]);
-pub type EndpointId = PublicKey;
-impl PublicKey {
-    pub fn as_bytes(&self) -> (r: &[u8; 32]) ensures *r == self.0 { &self.0 }
-}
-
-/// spec of the id-order tie-break `expected_sync_direction(me, other) is Accept`; its antisymmetry for me != other
-/// is proved on the real function by Kani unit U-dir
-pub uninterp spec fn dir_is_accept(me: PublicKey, other: PublicKey) -> bool;
-
 /// iroh `EndpointAddr`: only constructed here
 #[verifier::external_body]
 pub struct EndpointAddr { _p: u8 }
